@@ -100,6 +100,11 @@ def step (line : String) : String :=
       if b.length < o + l then "bad-op" else
       match rrData b o l t with | some d => "ok " ++ showBytes d | none => "err"
     | _, _, _, _ => "bad-op"
+  | ["unpackt", tbl, h] =>           -- decode + "did every record match the layout of its type"
+    match hexOr h with
+    | some b => withTable tbl fun I =>
+        match unpackT I b with | some (m, ok) => "ok " ++ showMsg m ++ (if ok then " 1" else " 0") | none => "err"
+    | none => "bad-op"
   | ["wfascii", h, q, an, ns, ar] =>
     match parseMsg h q an ns ar with
     | some m => if wellFormedAscii m then "1" else "0"
